@@ -101,6 +101,20 @@ def main():
     if os.path.exists(os.path.join(mdir, "note.md")):
         note = open(os.path.join(mdir, "note.md")).read()
     meta["needs_to_manifest"] = note[:1500]
+    # earlier runs of the same change against older revisions of the check (what was missed, then strengthened)
+    hist = []
+    old = os.path.join(out_dir, "meta.json")
+    if os.path.exists(old):
+        try:
+            o = json.load(open(old))
+            hist = o.get("history", [])
+            oc = o.get("check", {})
+            hist.append({"verif_commit": oc.get("verif_commit"), "check": o.get("property"),
+                         "result": "concrete input" if o.get("detected_with_concrete_input") else
+                                   ("no-failing-input-found" if o.get("detected") else "MISSED")})
+        except Exception:
+            pass
+    meta["history"] = hist
     with open(os.path.join(out_dir, "meta.json"), "w") as f:
         json.dump(meta, f, indent=1, ensure_ascii=False)
     print(json.dumps({k: meta.get(k) for k in ("id", "property", "confirmed", "detected", "detected_with_concrete_input")}, indent=1))
